@@ -174,6 +174,56 @@ def wide_spec(rng, n: int):
     return {"graph": nodes, "root": 0}, (3 if two_level else 2)
 
 
+def random_cyclic(rng):
+    """A random small container tree (3..9 containers, mixed kinds, scalars and empty containers
+    among the children) plus 1..2 back edges to an ancestor or to the node itself, inserted first,
+    last or in the middle; possibly inside a long array.  Returns (spec, branching)."""
+    nodes: List[list] = [[rng.choice("ld"), []]]
+    parent = {0: None}
+    order = [0]
+    n = rng.randint(2, 8)
+    for _ in range(n):
+        p = rng.choice(order)
+        nodes.append([rng.choice("ld"), []])
+        i = len(nodes) - 1
+        parent[i] = p
+        order.append(i)
+    kids: Dict[int, List[int]] = {i: [] for i in order}
+    for i in order[1:]:
+        kids[parent[i]].append(i)
+    back: Dict[int, List[int]] = {i: [] for i in order}
+    nback = rng.choice((1, 1, 1, 2))
+    for _ in range(nback):
+        src = rng.choice(order)
+        anc = [src]
+        a = parent[src]
+        while a is not None:
+            anc.append(a)
+            a = parent[a]
+        back[src].append(rng.choice(anc))
+    # branching: some cycle can be entered twice from one container (two back edges from one node,
+    # or a back edge from two different descendants of the target)
+    targets = [t for i in order for t in back[i]]
+    branching = len(targets) > len(set(targets)) or any(len(back[i]) > 1 for i in order)
+    for i in order:
+        members: List[int] = list(kids[i])
+        for t in back[i]:
+            members.insert(rng.choice((0, len(members), rng.randrange(len(members) + 1))), t)
+        # scalars / empty containers / padding of a long array around them
+        for _ in range(rng.choice((0, 0, 1, 2, 6))):
+            if rng.random() < 0.7:
+                nodes.append(["v", rng.randint(1, 9)])
+            else:
+                nodes.append([rng.choice("ld"), []])
+            members.insert(rng.randrange(len(members) + 1), len(nodes) - 1)
+        if nodes[i][0] == "l":
+            nodes[i][1] = members
+        else:
+            keys = ["a", "b", "c", "d", "e", "f", "g", "h", "i", "j", "k", "m", "n", "o", "p"]
+            nodes[i][1] = [[keys[j % len(keys)] + ("" if j < len(keys) else str(j)), m] for j, m in enumerate(members)]
+    return {"graph": nodes, "root": 0}, branching
+
+
 DAGS = {
     "dag-shared-leaf": {"graph": [["l", [1, 1]], ["l", [2]], ["v", 1]], "root": 0},
     "dag-diamond": {"graph": [["d", [["a", 1], ["b", 2]]], ["l", [3]], ["l", [3]], ["d", [["a", 4]]], ["v", 9]], "root": 0},
@@ -189,6 +239,12 @@ DESC_SELS = [
 ]
 # [?@..a]: existence of a descendant member "a" below each child
 EMBEDDED_DESC_FILTER = {"t": "filter", "e": {"t": "rel", "q": {"segs": [{"k": "desc", "sels": [{"t": "name", "v": "a"}], "sh": True}]}}}
+# [?count(@..*) > K]: the descendant segment inside a function argument
+def embedded_count_filter(k: int) -> Dict[str, Any]:
+    inner = {"t": "rel", "q": {"segs": [{"k": "desc", "sels": [{"t": "wild"}], "sh": True}]}}
+    return {"t": "filter", "e": {"t": "cmp", "op": ">", "l": {"t": "call", "name": "count", "args": [inner]}, "r": {"t": "lit", "v": k}}}
+
+
 PREFIX_SELS = [{"t": "wild"}, {"t": "name", "v": "a"}, {"t": "index", "v": 0}, {"t": "index", "v": -1}]
 
 
@@ -238,11 +294,16 @@ def gen_scenario(rng, tier: str) -> Dict[str, Any]:
         if rng.random() < 0.2:
             segs.append({"k": "child", "sels": [{"t": "wild"}], "sh": False})
     else:
-        if r < 0.92:
+        if r < 0.78:
+            spec, branching = random_cyclic(rng)
+            shape = {"class": "cyclic-branching" if branching else "cyclic", "name": "random"}
+            name = "random-branching" if branching else "random"
+        elif r < 0.92:
             name = rng.choice(sorted(CYCLIC))
             spec = CYCLIC[name]
             shape = {"class": "cyclic-branching" if name in BRANCHING else "cyclic", "name": name}
-            if name in BRANCHING:
+        if r < 0.92:
+            if name in BRANCHING or name == "random-branching":
                 L = rng.choice((1, 2, 3, 4, 5, 6, 50, 100, 100, 300))
             else:
                 L = rng.choice((1, 2, 3, 5, 8, 12, 50, 100, 100, 300))
@@ -256,7 +317,7 @@ def gen_scenario(rng, tier: str) -> Dict[str, Any]:
             segs.append({"k": "child", "sels": [rng.choice(PREFIX_SELS)], "sh": False})
     if rng.random() < 0.12 and L <= 150:
         # the descendant segment sits inside a filter: applied to each child of the input node
-        segs.append({"k": "child", "sels": [EMBEDDED_DESC_FILTER], "sh": False})
+        segs.append({"k": "child", "sels": [EMBEDDED_DESC_FILTER if rng.random() < 0.5 else embedded_count_filter(rng.choice((0, 0, 1, 3)))], "sh": False})
     else:
         segs.append({"k": "desc", "sels": rng.choice(DESC_SELS), "sh": rng.random() < 0.5})
         if rng.random() < 0.25:
@@ -415,7 +476,7 @@ def shrink_candidates(payload: Dict[str, Any]):
     # drop prefix/suffix segments, simplify selectors
     q = sc["query"]
     for q2 in Q.shrink_query(q):
-        ndesc = sum(1 for g in q2["segs"] if g["k"] == "desc") + sum(1 for g in q2["segs"] for x in g["sels"] if x == EMBEDDED_DESC_FILTER)
+        ndesc = sum(1 for g in q2["segs"] if g["k"] == "desc") + sum(1 for g in q2["segs"] for x in g["sels"] if N.is_embedded_desc(x))
         if ndesc >= 1 and not (ch and len([g for g in q2["segs"] if g["k"] == "child"]) < len([g for g in q["segs"] if g["k"] == "child"]) and ch["npre"]):
             yield {**payload, "scenario": {**sc, "query": q2}}
     # schedule reduction
